@@ -250,6 +250,14 @@ func (p *Policy) Assemble() ([]bpf.Instruction, error) {
 		instructions = append(instructions, groupInsts...)
 	}
 
+	// Without any syscall in the groups everything gets the default action.
+	defaultOnly := len(instructions) == 0
+	if defaultOnly {
+		ret := NewProgram()
+		ret.Ret(p.DefaultAction)
+		instructions = ret.instructions
+	}
+
 	// Filter out x32 to prevent bypassing blacklists by using the 32-bit ABI.
 	var x32Filter []bpf.Instruction
 	if p.arch.ID == arch.X86_64.ID {
@@ -265,6 +273,10 @@ func (p *Policy) Assemble() ([]bpf.Instruction, error) {
 
 	// If the loaded arch ID is not equal p.arch.ID, jump to the final Ret instruction.
 	jumpN := len(x32Filter) + len(instructions) - 1
+	if defaultOnly {
+		// There is no return of a group's action behind the default return.
+		jumpN++
+	}
 	if jumpN <= 255 {
 		program = append(program, bpf.JumpIf{Cond: bpf.JumpNotEqual, Val: uint32(p.arch.ID), SkipTrue: uint8(jumpN)})
 	} else {
